@@ -48,13 +48,7 @@ pub open spec fn qentry_ok(m: TM, roots: Seq<u32>, qv: VecV, e: (OrderedFloat, N
     (e.1.mode == NodeMode::Tree && roots.contains(e.1.item)) || (exists|w: (u32, OrderedFloat)| #[trigger] child_entry(m, qv, w, e))
 }
 // ---- C02: exact search ------------------------------------------------------------------------------------------------------
-/// the forest invariant of C01 as the reader needs it: every root's tree is well formed and covers exactly the stored items
-pub open spec fn search_forest_ok(v: DbView, i: u16, roots: Seq<u32>, items: Set<u32>) -> bool {
-    let m = tmap(v, i);
-    &&& (forall|k: int| 0 <= k < roots.len() ==> tree(m, tn(#[trigger] roots[k])) && titems(m, tn(roots[k])) == items)
-    &&& (forall|id: u32| #![trigger items.contains(id)] items.contains(id) <==> v.contains_key(ikey(i, id)))
-    &&& (items.len() > 0 ==> roots.len() > 0)
-}
+//@include lib/search_specs.rs
 pub open spec fn covered(m: TM, nns: Seq<u32>, q: Multiset<(OrderedFloat, NodeId)>, x: u32) -> bool {
     nns.contains(x) || (exists|e: (OrderedFloat, NodeId)| #![trigger q.count(e)] q.count(e) > 0 && titems(m, e.1).contains(x))
 }
@@ -176,6 +170,8 @@ dedup_(&mut nns);
                 let j = choose|j: int| 0 <= j < nns_a.len() && nns_a[j] == x;
                 assert(in_filter(opt.candidates, nns_a[j]));
             }
+            // C03 (necessary for budget monotonicity): no candidate collected by the traversal is dropped before scoring
+            assert forall|x: u32| nns_a.contains(x) implies nns@.contains(x) by { assert(nns_b.contains(x)); }
             // C02: with the queue drained, every stored item inside the filter is among the candidates
             if sf && unl {
                 assert forall|x: u32| #![trigger items.contains(x)] items.contains(x) && in_filter(opt.candidates, x) implies nns@.contains(x) by {
@@ -195,6 +191,13 @@ dedup_(&mut nns);
 //@hint after <<<let mut sorted_nns = BinaryHeap::from(nns_distances);>>>
         let ghost total = sorted_nns.view().len();
         proof {
+            // C03: every candidate collected by the traversal is scored and offered to the final selection
+            assert forall|x: u32| nns_a.contains(x) implies in_heap(sorted_nns.view(), x) by {
+                assert(nns@.contains(x));
+                let j = choose|j: int| 0 <= j < nns@.len() && nns@[j] == x;
+                assert((nd[j].0).1 == x);
+                assert(sorted_nns.view().count(nd[j]) > 0);
+            }
             if sf && unl {
                 assert forall|x: u32| #![trigger items.contains(x)] items.contains(x) && in_filter(opt.candidates, x) implies in_heap(sorted_nns.view(), x) by {
                     let j = choose|j: int| 0 <= j < nns@.len() && nns@[j] == x;
